@@ -9,6 +9,7 @@ import (
 	"time"
 
 	"verif/tool/corpus"
+	"verif/tool/gosym"
 )
 
 var tableRowRe = regexp.MustCompile(`(?m)^/\* (\d+) \*/ \{([^}]*)\},`)
@@ -133,27 +134,45 @@ func (c *Ctx) vTable(s *corpus.Spec, d *Dump, table [][]int, wantSound, wantComp
 }
 
 // vTableAll generates packed/unpacked pairs for the specs and validates every emitted dense table.
+// The table is read by loading the emitted -u file and evaluating its StateActionArray in the
+// engine (independent of how the generator formats the text).
 func (c *Ctx) vTableAll(y *YGen, specs []*corpus.Spec, wantSound, wantComplete bool) {
-	dir := c.Scratch()
-	var jobs []YJob
-	for _, s := range specs {
-		jobs = append(jobs, YJob{Name: s.Name, Text: s.GoText(), Variant: "pair",
-			Out: fmt.Sprintf("%s/%s-p.go", dir, s.Name), Out2: fmt.Sprintf("%s/%s-u.go", dir, s.Name)})
-	}
-	res, err := y.Run(jobs, 10*time.Minute)
+	g, err := c.Generate(y, specs, []string{"pair-p", "pair-u"}, nil)
 	if err != nil {
 		c.Inconclusive("%v", err)
 		return
 	}
-	for i, r := range res {
-		s := specs[i]
+	dir := c.Scratch()
+	for _, s := range g.Specs {
+		r := g.Results[genKey(s.Name, "pair-p")]
 		if !r.OK || r.Dump == nil {
 			c.Inconclusive("generation failed for corpus grammar %s: %s%s", s.Name, r.Err, r.Panic)
 			continue
 		}
-		tab, err := emittedTable(fmt.Sprintf("%s/%s-u.go", dir, s.Name))
-		if err != nil {
-			c.Inconclusive("%s: %v", s.Name, err)
+		fn := g.Eng.Func(g.PkgPath(s.Name, "pair-u"), "VerifDenseTable")
+		if fn == nil {
+			c.Inconclusive("%s: VerifDenseTable not found", s.Name)
+			continue
+		}
+		var tab [][]int
+		cfg := g.Eng.Cfg
+		cfg.Workers = 1
+		cfg.SamplePaths = 0
+		rep := g.Eng.ExploreFunc(s.Name+" dense table", func(st *gosym.State) {
+			res, pi := st.CallFunc(fn, nil)
+			if pi != nil {
+				return
+			}
+			for _, row := range res.(gosym.Slice) {
+				var rr []int
+				for _, v := range row.(gosym.Slice) {
+					rr = append(rr, int(v.(*gosym.Term).Int()))
+				}
+				tab = append(tab, rr)
+			}
+		}, &cfg)
+		if len(rep.Problems) > 0 || len(tab) == 0 {
+			c.Inconclusive("%s: could not evaluate the emitted table: %v", s.Name, rep.Problems)
 			continue
 		}
 		c.vTable(s, r.Dump, tab, wantSound, wantComplete && s.HasTag("lalr1"), dir)
